@@ -6,16 +6,16 @@ import json, glob, os, re
 
 V = "/verif"
 SUMMARY = {
- "C01": ("`updateNodeType`, `updateConjunctInfo`, `updateArcType`, `condition.meets`, `combineDefault(2)`, `mode`, `SimplifyBounds`; lemmas: kind ∩, flags ∪, mode max, arc min are ACI; `processListLit`, `processListVertex` (list length/closedness is a join)", "error reporting helpers; frames of `insertArc`, `yield`, …"),
- "C02": ("`opInfo` (panic unreachable), `repeatCount`, `MakeLabel`, `intDivOp` (zero divisor never reaches `big.Int`), `cmpTonode`, `token.Pos.Compare` + helpers = specification order (lemmas antisymmetry/reflexivity); the 20 scanner functions incl. `Scan` (no index/slice out of range, no explicit panic); the parser's panic protocol (`errf`, `incNestLevel`: explicit panics only with `panicking` set); `toposort.compareNodeByName` = specification order, lemmas strict/antisymmetric/transitive", "apd BigInt, label table bijective (C19), sort correctness"),
+ "C01": ("`updateNodeType`, `updateConjunctInfo`, `updateArcType`, `condition.meets`, `combineDefault(2)`, `mode`, `SimplifyBounds`; lemmas: kind ∩, flags ∪, mode max, arc min are ACI; `processListLit`, `processListVertex` (list length/closedness is a join); `getArc` (one arc per label, merge by minimum)", "error reporting helpers; frames of `insertArc`, `yield`, …"),
+ "C02": ("`opInfo` (panic unreachable), `repeatCount`, `MakeLabel`, `intDivOp` (zero divisor never reaches `big.Int`), `cmpTonode`, `token.Pos.Compare` + helpers = specification order (lemmas antisymmetry/reflexivity); the 20 scanner functions incl. `Scan` (no index/slice out of range, no explicit panic); the parser's panic protocol (`errf`, `incNestLevel`: explicit panics only with `panicking` set); `toposort.compareNodeByName` = specification order, lemmas strict/antisymmetric/transitive; **safety sweep** (S, no contract) of 60 functions: evaluator (`SliceExpr.evaluate`, `Builtin.call`, validators, clauses, …), compiler scope stack, error list, exporter, toposort, printer, `pkg/list`, `pkg/strings`", "apd BigInt, label table bijective (C19), sort correctness"),
  "C03": ("`SimplifyBounds` (keepx/keepy/bottom/nofab over all atoms), `opInfo`, `cmpTonode`, `errIncompatibleBounds`, `NewBool`, `HasErr`, `Err`, `BinOp` comparison arms, `compile.init` (every predeclared integer range is a row of the spec table)", "apd, `BinOpBool`, `NewErrf`, `strconv.Itoa` model"),
  "C04": ("`mode`, `combineDefault`, `combineDefault2` (complete, finite domains), `Disjunction.Default`, `finalizeDisjunctions` (0 ≤ NumDefaults ≤ len, no hole), `appendDisjunct` (default mark never lost/invented when a duplicate is dropped), `equalTerminal` (bounds equal only with the same operator), `Vertex.Default` (several defaults stay a disjunction of exactly those)", "`Equal`, `equalPartialNode`, `freeDisjunct`, `mergeCloseInfo` frames"),
- "C05": ("label packing/classification (12 functions, `arith bv`), `allowedInClosed`, `updateArcType`, `hasEvidenceForAll`, `hasEvidenceForOne` (direct evidence; no evidence without embedding scope), `lookupSet`; `ConstraintFromToken`/`ArcType.Token` inverse; lemma partition", "`containsDefID`, the embedding part of the evidence rule"),
+ "C05": ("label packing/classification (12 functions, `arith bv`), `allowedInClosed`, `updateArcType`, `getArc`, `hasEvidenceForAll`, `hasEvidenceForOne` (direct evidence; no evidence without embedding scope), `lookupSet`; `ConstraintFromToken`/`ArcType.Token` inverse; lemma partition", "`containsDefID`, the embedding part of the evidence rule"),
  "C06": ("`BinOp` comparison arms, `cmpTonode`, `numOp`, `Add/Sub/Mul/Quo`, `exactIntOp`, `newNum`, `intDivOp`, `IntDiv/IntMod/IntQuo/IntRem`; `literal.init#1` (unlimited precision context) and `NumInfo.decimal` (literal × multiplier is exact)", "apd incl. BigInt, `internal.Context.Quo`"),
  "C07": ("`boundSimplifier.add`, `.expr`, `wrapBin`, `MatchBuiltinRange`, `BoundValue.Kind`; `literal.appendEscaped`, `appendEscapedRune`, `singleLineHashCount`; `ConstraintFromToken`/`ArcType.Token` inverse; `exporter.stringLabel`, `ast.NewStringLabel`, `StringLabelNeedsQuoting` (label class survives, `#x`/`_x` always quoted)", "`exporter.expr`, `IsValidIdent`, ast constructors, utf8"),
- "C09": ("11 `token` functions, 20 `scanner` functions incl. `Scan` (window invariant, every index/slice in bounds); lemma Pos/Offset inverse; `literal.appendEscaped` (raw byte escape only for one invalid byte), `appendEscapedRune` (byte escape only for ASCII), `singleLineHashCount` (no early close, no escape, no triple quote); the parser's panic protocol (`errf`, `incNestLevel`, `closeList`, `closeNode` panic only with `panicking` set; `checkExpr`'s panic unreachable via `unparen`)", "`scanString`, `scanEscape`, `errf`, `AddLine`, utf8"),
+ "C09": ("11 `token` functions, 20 `scanner` functions incl. `Scan` (window invariant, every index/slice in bounds); lemma Pos/Offset inverse; `literal.appendEscaped` (raw byte escape only for one invalid byte), `appendEscapedRune` (byte escape only for ASCII), `singleLineHashCount` (no early close, no escape, no triple quote); the parser's panic protocol (`errf`, `incNestLevel`, `closeList`, `closeNode` panic only with `panicking` set; `checkExpr`'s panic unreachable via `unparen`); safety sweep (S) of `Unquote`, `Form.Append/Quote`, `ParseNum`, the parser's comment stack", "`scanString`, `scanEscape`, `errf`, `AddLine`, utf8"),
  "C14": ("all of `internal/mod/semver` (11 functions) incl. recursive prerelease spec; 8 order lemmas; `mvs.Graph.Selected`, `Graph.Require` (monotone, sufficient, minimal for any total preorder), worker closure of `buildList` (every requirement is queued), `par.Work.Add`/`init` under a monitor", "bytewise order axioms, `vcmp` total preorder, queue ownership"),
- "C15": ("`fileNameOK`, `checkElem`, `checkPath`, `CheckFilePath`, `CheckedFiles.Err`, `CheckZip` (+closure; names and the size accounting), `Unzip` (effects), the `WalkDir` callback of `listFilesInDir` (SkipDir only for directories, every entry accounted for)", "os/io/zip/path/strings, WalkDir"),
+ "C15": ("`fileNameOK`, `checkElem`, `checkPath`, `CheckFilePath`, `CheckedFiles.Err`, `CheckZip` (+closure; names and the size accounting), `Unzip` (effects), the `WalkDir` callback of `listFilesInDir` (SkipDir only for directories, every entry accounted for), `collisionChecker.check` (case-fold, file/dir and duplicate clashes; entries never forgotten)", "os/io/zip/path/strings, WalkDir"),
  "C16": ("`Cache.downloadDir`, `Cache.Fetch` (ghost dirState/partial/held, CI after every effect), `downloadZip1` + its deferred cleanup (ghost zipState/tmpState: rename only of a fully written, closed temp file; stale temp files removed only if owned), `writeDiskCache` (same protocol for module files)", "all file-system effect contracts, glob axiom"),
  "C18": ("`Task.done`, `Task.isReady`, `Controller.markReady`, `Controller.runLoop` (go effect), `tagChildren`, `getTask` (node-to-task map covers a task's children in every state)", "frame contracts, channel contract, `initTasks`, user callbacks"),
  "C19": ("`getKey`, `IndexToString`, `getNextUniqueID`, `LoadInstance`, `getNodeFromInstance`, `AddInst` (two monitors), `Vertex.MatchAndInsert` (no write through a pre-existing Environment), `adt.New` (private context, fresh generation id), `Vertex.Default`/`DerefValue` (no write to a pre-existing vertex or list marker)", "mutex exclusion, frames of `Accept`, `matchPattern`, `insertConjunct`"),
@@ -32,7 +32,7 @@ def a3():
         kf = sum(1 for k in known if k["property"] == pid and k["status"] == "known")
         obl = str(n) + (f" (+{kf} known findings)" if kf else "")
         s = SUMMARY[pid]
-        rows.append(f"| {pid} | {s[0]} | {len(c['functions'])} / {len(c.get('lemmas', []))} | {obl} | {s[1]} |")
+        rows.append(f"| {pid} | {s[0]} | {len(c['functions'])}{('+'+str(len(c['sweep']))+'S') if c.get('sweep') else ''} / {len(c.get('lemmas', []))} | {obl} | {s[1]} |")
     return "\n".join(rows)
 
 def seeds():
